@@ -649,6 +649,28 @@ def bs_heap_fast(ops, i, n, tier_lmax):
 PROPERTIES["C05"]["jobs"] += [bs_heap_fast("find,rfind,count", i, 4, (100, 300)) for i in range(4)]
 PROPERTIES["C05"]["explanation"] += " The valgrind placements are repeated in a plain release build, where no debug assertion can pre-empt an out-of-slice read."
 
+
+
+# ---- additions after the fourth round of independently seeded changes
+OWNED = "finder-owned,rfinder-owned,iter-owned,riter-owned"
+PROPERTIES["C17"]["jobs"] += [
+    ss("e", OWNED, ["alloc"], "ss/E2/owned finders (searching must not allocate)", ["--letters", "ab"], q=["--nmax", "5", "--hmax", "12"], t=["--nmax", "7", "--hmax", "15"]),
+    ss("ln", OWNED, ["alloc"], "ss/LN/owned finders"),
+]
+PROPERTIES["C17"]["explanation"] += " Searching and iterating with an OWNED finder (after into_owned) is probed as well: only the conversion itself may allocate."
+PROPERTIES["C03"]["jobs"] += [ss("e", "iter-owned", RESULT, "ss/E2/iter-owned", ["--letters", "ab"], q=["--nmax", "5", "--hmax", "12"], t=["--nmax", "7", "--hmax", "15"])]
+PROPERTIES["C04"]["jobs"] += [ss("e", "riter-owned", RESULT, "ss/E2/riter-owned", ["--letters", "ab"], q=["--nmax", "5", "--hmax", "12"], t=["--nmax", "7", "--hmax", "15"])]
+PROPERTIES["C14"]["jobs"] += [bs("raw-edges", "find,rfind,count", ["panic", "crash"], name="bs/raw-edges")]
+# out-of-slice reads that a debug assertion would pre-empt: plain release build
+PROPERTIES["C05"]["jobs"] += [
+    ss("wrong-needle", None, MEMORY, "ss/wrong-needle (release build)", profile="fast"),
+    ss("equal", None, MEMORY, "ss/equal (release build)", profile="fast"),
+    ss("e", ALLSUB, MEMORY, "ss/E2/guard (release build)", ["--letters", "ab", "--places", GUARD], profile="fast", q=["--nmax", "4", "--hmax", "11"], t=["--nmax", "6", "--hmax", "14"]),
+    ss("e", "memmem,finder,rk,rrk,rmemmem,rfinder", MEMORY, "ss/RK/guard (release build)", ["--letters", "rk", "--places", GUARD], profile="fast", q=["--nmax", "4", "--hmax", "9"], t=["--nmax", "5", "--hmax", "10"]),
+    bs("guard", "find,rfind,count", MEMORY, name="bs/guard (release build)"),
+]
+PROPERTIES["C05"]["jobs"][-1]["build"] = B("bs", "fast")
+
 HOOK_COMMITS = ["ffdf165", "556bbde", "0f24165", "8fa21ee"]
 
 ENGINES = [
